@@ -209,7 +209,7 @@ def factoryOf (S : Schema) (n : String) : Option String :=
 structure UState where
   /-- names with `requires_unaligned = True` -/
   req : List String
-  /-- `MarkedStructs.already_marked` -/
+  /-- `MarkedStructs.already_marked`: the descendants whose members have been visited -/
   marked : List String
   deriving DecidableEq, Repr, Inhabited
 
@@ -237,12 +237,13 @@ def structMemberTypes (S : Schema) (n : String) : Except String (List String) :=
       | .int _ => pure acc) []
   | _ => pure []
 
-/-- second half of a pass: struct typed members of the newly marked structs get the mark and go straight to `already_marked` -/
+/-- second half of a pass: struct typed members of the newly marked structs get the mark.  They do NOT enter `already_marked`:
+    their own members have not been visited, and when they derive from a marked factory the next pass visits them as descendants. -/
 def passB (S : Schema) : List String → UState → Except String UState
   | [], st => pure st
   | n :: rest, st => do
     let ts ← structMemberTypes S n
-    passB S rest ⟨ts.foldl addName st.req, ts.foldl addName st.marked⟩
+    passB S rest ⟨ts.foldl addName st.req, st.marked⟩
 
 /-- one iteration of the `while True` loop -/
 def unalignedPass (S : Schema) (order : List String) (st : UState) : Except String UState := do
